@@ -6,6 +6,7 @@
 
 #include "../common/worker.hpp"
 
+#include <csignal>
 #include <new>
 
 using namespace yorel::yomm2;
@@ -165,26 +166,71 @@ static json gen_list(Choice& ch, int size) {
     int n = 1 + ch.draw(6);
     int len = 1 + ch.draw(std::max(2, size));
     std::vector<ListOp> ops;
-    ListSim sim(n); // used to generate valid sequences by construction
+    // valid sequences by construction, from a pure model (the library is
+    // not touched while generating)
+    std::vector<char> in(n, 0);
+    auto valid = [&](const ListOp& o) {
+        return o.op == 'p' ? !in[o.node] : o.op == 'r' ? bool(in[o.node])
+                                                       : true;
+    };
     for (int i = 0; i < len; ++i) {
         ListOp op;
         int k = ch.draw(8);
         op.op = k < 4 ? 'p' : k < 7 ? 'r' : 'c';
         op.node = ch.draw(n);
-        if (!sim.valid(op)) {
+        if (!valid(op)) {
             // pick the nearest valid alternative
             op.op = op.op == 'p' ? 'r' : 'p';
-            if (!sim.valid(op)) {
+            if (!valid(op)) {
                 continue;
             }
         }
-        sim.apply(op);
+        if (op.op == 'p') {
+            in[op.node] = 1;
+        } else if (op.op == 'r') {
+            in[op.node] = 0;
+        } else {
+            in.assign(n, 0);
+        }
         ops.push_back(op);
     }
     return ops_json(ops, n);
 }
 
+// A library assertion (BOOST_ASSERT -> abort) in the middle of the
+// enumeration: report the sequence being replayed as the failing case.
+static const std::vector<ListOp>* g_current_seq = nullptr;
+static int g_current_n = 0;
+static std::string g_exhaustive_out;
+
+static void on_abort(int) {
+    if (g_current_seq) {
+        json res;
+        res["property"] = "C18";
+        res["variant"] = "list-exhaustive";
+        res["evaluations"] = 1;
+        res["nontrivial"] = 0;
+        res["distinct_nontrivial"] = 0;
+        res["inconclusive"] = 0;
+        res["classes"] = json::object();
+        res["excluded"] = json::object();
+        res["samples"] = json::array();
+        res["failures"] = json::array();
+        res["failures"].push_back(
+            {{"property", "C18"},
+             {"variant", "list"},
+             {"case", ops_json(*g_current_seq, g_current_n)},
+             {"message", "crash: the library aborted (assertion) while "
+                         "replaying this sequence"}});
+        vf::save_json(g_exhaustive_out, res);
+    }
+    _exit(1);
+}
+
 static int exhaustive(int maxlen, int n, const std::string& out) {
+    g_exhaustive_out = out;
+    g_current_n = n;
+    signal(SIGABRT, on_abort);
     std::uint64_t sequences = 0, observations = 0, nontrivial = 0;
     json failure;
     std::vector<ListOp> alphabet;
@@ -197,6 +243,7 @@ static int exhaustive(int maxlen, int n, const std::string& out) {
     std::vector<json> samples;
     std::function<bool(void)> rec = [&]() -> bool {
         // replay the prefix from scratch: no state shared between sequences
+        g_current_seq = &seq;
         ListSim sim(n);
         for (auto& o : seq) {
             sim.apply(o);
